@@ -69,7 +69,104 @@ def cases(tier, seed):
                 sp["block"]["design"].append(nm)
             out.append({"cls": "synth", "kind": "synth", "spec": sp, "strategy": rng.choice(["RandomGen", "IterateSATGen"]),
                         "n": rng.randint(1, 3)})
+    # appended (round 4): blocks with ContinuousFactors (kept apart from block.design by the library), with and
+    # without a weighted factor outside the crossing (hidden desugared factor)
+    for i in range(n // 7):
+        rng = random.Random("c20cont/%s/%d" % (seed, i))
+        out.append({"cls": "synth_cont", "kind": "synth_cont", "nb": rng.randint(2, 3), "weighted": rng.random() < 0.7,
+                    "derived": rng.random() < 0.4, "ncont": rng.randint(1, 2), "cont_first": rng.random() < 0.3,
+                    "strategy": rng.choice(["RandomGen", "IterateSATGen", "IterateGen"]), "n": rng.randint(1, 3),
+                    "seed": rng.randrange(10 ** 6)})
     return out
+
+
+def run_cont(case):
+    """design with continuous factors, built directly (the spec language has no continuous factors)"""
+    import sweetpea as sp
+    counters = {}
+    viol = []
+    rng = random.Random(case["seed"])
+    facs = [sp.Factor("F%d" % i, ["%s%d" % (chr(97 + i), j) for j in range(2)]) for i in range(case["nb"])]
+    design = list(facs)
+    if case["derived"]:
+        a, b = facs[0], facs[1]
+        design.append(sp.Factor("D0", [sp.DerivedLevel("same", sp.WithinTrial(lambda x, y: x[1] == y[1], [a, b])),
+                                       sp.DerivedLevel("diff", sp.WithinTrial(lambda x, y: x[1] != y[1], [a, b]))]))
+    if case["weighted"]:
+        design.append(sp.Factor("W0", [sp.Level("w0", rng.choice([2, 3])), "w1"]))
+    conts = []
+    for i in range(case["ncont"]):
+        if i == 1 and rng.random() < 0.5:
+            conts.append(sp.ContinuousFactor("C1", distribution=sp.CustomDistribution(lambda v: v + 1.0, [conts[0]])))
+        else:
+            conts.append(sp.ContinuousFactor("C%d" % i, distribution=sp.UniformDistribution(0.0, 1.0 + i)))
+    design = (conts + design) if case["cont_first"] else (design + conts)
+    user = [f.name for f in design]
+    block, err, _ = O.quiet(sp.CrossBlock, design, facs[:rng.randint(1, len(facs))], [])
+    if err:
+        return {"nontrivial": False, "violations": [], "counters": {"rejected_by_constructor": 1}}
+    from sweetpea._internal.primitive import HiddenName
+    if any(isinstance(f.name, HiddenName) for f in block.design):
+        counters["designs_with_hidden_factor"] = 1
+    exps, err, _ = O.quiet(sp.synthesize_trials, block, case["n"], getattr(sp, case["strategy"]))
+    if err:
+        viol.append(D.exc_violation(err, "synthesize_trials", kind="conversion_exception"))
+        exps = None
+    if not exps:
+        counters["no_experiments"] = 1
+        return {"nontrivial": False, "violations": viol, "counters": counters}
+    counters["continuous_designs"] = 1
+    for e in exps:
+        if set(e) != set(user) or any(not isinstance(k, str) for k in e):
+            viol.append({"kind": "synth_keys", "msg": "synthesize_trials returned keys %r, user-declared factors are %r"
+                                                      % (list(e.keys()), user)})
+            break
+    if not viol:
+        # column order: discrete factors in design order, continuous factors wherever the library puts them -
+        # compare per name, order of the discrete names only
+        order = [f.name for f in design if not isinstance(f, sp.ContinuousFactor)]
+        tup, e1, _ = O.quiet(sp.experiments_to_tuples, block, exps)
+        dic, e2, _ = O.quiet(sp.experiments_to_dicts, block, exps)
+        for nm, e in (("experiments_to_tuples", e1), ("experiments_to_dicts", e2)):
+            if e:
+                viol.append(D.exc_violation(e, nm, kind="conversion_exception"))
+        cells = 0
+        for ei, e in enumerate(exps):
+            T = len(e[user[0]])
+            if dic is not None and not viol:
+                rows = dic[ei]
+                want = [{f: e[f][t] for f in user} for t in range(T)]
+                if [dict(r) for r in rows] != want or any([k for k in r if k in order] != order for r in rows):
+                    viol.append({"kind": "dicts_differ", "msg": "experiments_to_dicts (continuous design) experiment %d: %r, "
+                                                                "expected %r" % (ei, list(rows)[:2], want[:2])})
+                cells += T * len(user)
+            if tup is not None and dic is not None and not viol:
+                keys = list(dic[ei][0].keys())
+                if [tuple(r) for r in tup[ei]] != [tuple(e[f][t] for f in keys) for t in range(T)]:
+                    viol.append({"kind": "tuples_differ", "msg": "experiments_to_tuples (continuous design) experiment %d: %r"
+                                                                 % (ei, list(tup[ei])[:3])})
+                cells += T * len(user)
+        with tempfile.TemporaryDirectory(dir=".") as d:
+            pre = os.path.join(d, "experiment")
+            _, e3, _ = O.quiet(sp.save_experiments_csv, block, exps, pre)
+            if e3:
+                viol.append(D.exc_violation(e3, "save_experiments_csv", kind="conversion_exception"))
+            else:
+                for ei, e in enumerate(exps):
+                    with open("%s_%d.csv" % (pre, ei), newline="") as f:
+                        rows = list(csv.reader(f))
+                    T = len(e[user[0]])
+                    hdr = rows[0] if rows else []
+                    if sorted(hdr) != sorted(user) or [h for h in hdr if h in order] != order or \
+                            rows[1:] != [[str(e[h][t]) for h in hdr] for t in range(T)]:
+                        viol.append({"kind": "csv_differs", "msg": "csv (continuous design) of experiment %d reads back as %r; "
+                                                                   "user-declared factors %r" % (ei, rows[:3], user)})
+                        break
+                    cells += T * len(user)
+        counters["experiments_converted"] = len(exps)
+        counters["cells_compared"] = cells
+    return {"nontrivial": True, "violations": viol[:4], "counters": counters,
+            "sample": {"case": {k: case[k] for k in case if k != "cls"}, "experiment": {str(k): list(v)[:4] for k, v in exps[0].items()}}}
 
 
 def check_conversions(block, user_names, exps, prefix, viol, counters):
@@ -141,6 +238,8 @@ def run_case(case):
         T = len(exps[0][user[0]])
         return {"nontrivial": T >= 2, "violations": viol[:4], "counters": counters,
                 "sample": {"factors": case["factors"], "experiments": exps[:1]}}
+    if case["kind"] == "synth_cont":
+        return run_cont(case)
     spec = case["spec"]
     block, pool, cerr = O.construct(spec)
     if cerr:
@@ -163,4 +262,4 @@ def run_case(case):
         check_conversions(block, user, exps, "experiment", viol, counters)
     T = len(exps[0][user[0]]) if user and user[0] in exps[0] else 0
     return {"nontrivial": T >= 2, "violations": viol[:4], "counters": counters,
-            "sample": {"spec": D.small(spec), "strategy": case["strategy"], "experiment": exps[0]}}
+            "sample": {"spec": D.small(spec), "strategy": case["strategy"], "experiment": {str(k): v for k, v in exps[0].items()}}}
